@@ -521,10 +521,12 @@ fn run_case(h: &Harness, dim: &str, sp: &Spec) -> (u64, Vec<(usize, Fault)>) {
         match h.step(&st, a, &mut f) {
             Some((ns, _)) => {
                 st = ns;
+                heartbeat();
                 h.check(&st, &mut f);
             }
             None => {}
         }
+        heartbeat();
         if !f.is_empty() {
             out.extend(f.into_iter().map(|x| (k, x)));
             // a violating state is reported and not continued from (as in the E3 explorer)
